@@ -402,6 +402,8 @@ def show(t, lines=True):
     if not isinstance(t, tuple) or not t:
         return repr(t)
     k = t[0]
+    if not isinstance(k, str):
+        return "(" + ", ".join(show(x, lines) if isinstance(x, tuple) else str(x) for x in t) + ")"
 
     def at(site):
         return f"@{site[1]}" if lines and is_site(site) else ""
